@@ -43,7 +43,7 @@ def make_case(rng, tier):
             im[0] = 0
     fault = None
     if kind == "invalid":
-        fault = rng.choice(["length", "below", "gap", "mixed_env", "all_dropped", "float"])
+        fault = rng.choice(["length", "below", "gap", "mixed_env", "mixed_env", "mixed_env", "all_dropped", "float"])
         if fault == "length":
             im = im + [0]
         elif fault == "below":
@@ -60,6 +60,16 @@ def make_case(rng, tier):
                     if env[a] != env[b] and im[a] >= 0 and not done:
                         im[b] = im[a]
                         done = True
+            if done and rng.random() < 0.6:
+                # ... in a map that also drops a cell, the labels kept gap-free: the mixed group is then the map's only fault
+                others = [c for c in range(n) if im[c] >= 0 and im.count(im[c]) > 1]
+                mixed = [g for g in set(im) if g >= 0 and len(set(env[c] for c in range(n) if im[c] == g)) > 1]
+                others = [c for c in others if im[c] not in mixed or im.count(im[c]) > 2]
+                if others and -1 not in im:
+                    c0 = rng.choice(others)
+                    keep = (im[c0], set(env[c] for c in range(n) if im[c] == im[c0] and c != c0))
+                    if im[c0] not in mixed or len(keep[1]) > 1:
+                        im[c0] = -1
             if not done:
                 fault = None
             elif sorted(set(v for v in im if v >= 0)) != list(range(max(im) + 1)):
